@@ -52,6 +52,14 @@ checks = {
    "Generated tables (ties, NULLs, single-row and many partitions; every 8th case 200..900 rows with --cpu 2..8) and random analytic expressions (ranking functions, NTILE, LAG/LEAD with offsets/defaults/IGNORE NULLS, FIRST/LAST/NTH_VALUE with random ROWS frames and IGNORE NULLS, aggregates and a user-defined aggregate with OVER and random frames) are evaluated by the real pipeline; an independent evaluator partitions, orders and applies each definition to every row's frame; other columns and the row count must be unchanged.",
    "Unspecified corners are generated only where they cannot influence the verdict: the default frame of an ordered clause without windowing clause, the offset semantics of LAG/LEAD IGNORE NULLS beyond 1, PERCENT_RANK of a single-row partition.",
    "runtime monitor: differential check against an independent per-partition/per-frame evaluator"),
+ "C15": ("exploration", "§5 C15",
+   "Generated procedures (nested IF/ELSEIF/CASE/WHILE blocks, shadowing and same-block re-declarations over a three-name alphabet, loops controlled by variables the body shadows, DISPOSE, use after block end, BREAK/CONTINUE/EXIT, functions with defaults, recursion and mutual calls, RETURN inside loops, block-local cursors and temporary tables) are executed by the real processor, 150+ per harness process so pooled scope objects are recycled; an independent reference interpreter with block-scoped environments must produce the same PRINT trace and the same error/no-error outcome. Every 8th case also calls a generated function from a query over 200..700 rows with --cpu 2..8 and compares every row.",
+   "Function bodies only use parameters, locals and never-shadowed globals (caller-local visibility is not specified) and do not assign globals (no defined result under parallel invocation). Values are small integers.",
+   "runtime monitor: differential check of execution traces against a reference interpreter"),
+ "C16": ("exploration", "§5 C16",
+   "Histories of 8..40 cursor operations on two cursors (DECLARE/OPEN/FETCH with every position keyword and boundary offsets/CLOSE/DISPOSE/WHILE..IN/status expressions) interleaved with DML, ALTER, COMMIT and ROLLBACK on the underlying table run statement by statement in one real transaction; a cursor model whose snapshot is taken by a SELECT at OPEN time is compared after every operation: fetched values, IS OPEN / IS IN RANGE / COUNT, rows visited by WHILE..IN and error/no-error.",
+   "Variables after an out-of-range FETCH are not judged; non-integer offsets only watched for internal failures.",
+   "runtime monitor: state-machine model compared after every operation of a history"),
 }
 order = ["C%02d" % i for i in range(1, 21)]
 na_reason = "check not built yet in this session (work in progress; see DESIGN.md)"
